@@ -644,7 +644,14 @@ def describe_assignment_target(
                 obj = stack.pop()
                 stack.append(f"{obj}.{insn.argval}")
             elif insn.opname == "LOAD_CONST":
-                stack.append(insn.argrepr)
+                if insn.argval is Ellipsis:
+                    stack.append("...")
+                elif isinstance(insn.argval, (float, complex)):
+                    # repr() of an infinity is a name, not a literal
+                    # (ast.unparse() does the same thing)
+                    stack.append(insn.argrepr.replace("inf", "1e999"))
+                else:
+                    stack.append(insn.argrepr)
             elif insn.opname in ("BINARY_SUBSCR", "STORE_SUBSCR"):
                 index = stack.pop()
                 container = stack.pop()
